@@ -21,6 +21,7 @@ ASSUMPTIONS = [
     "cuda backend = Numba CUDA simulator",
 ]
 DECIDING_COUNTERS = ["gain_bins[numba]", "gain_bins[numpy]", "gain_bins[cuda]",
+                     "gain_cases_in_rescaled_units",
                      "refill_histories[cuda]", "refill_histories[numba]",
                      "decisive_bins[numba]", "decisive_bins[numpy]", "decisive_bins[cuda]"]
 MIN_NONTRIVIAL = {"quick": 60, "thorough": 1000}
@@ -79,9 +80,15 @@ def gain_case(rec, seedt, backend, cuda):
         x -= np.mean(x)
     else:
         x = gen.record(rng, N, rk)
+    # the record's physical unit is arbitrary: the same samples expressed in a unit 2^k times
+    # larger or smaller (an exact rescaling) must give the same transfer function and coherence
+    amp_exp = int(rng.choice([0, 0, 0, -40, -100, -200, 40, 130]))
+    if rk in ("offset1e6",) and amp_exp > 100:
+        amp_exp = 40
+    x = x * 2.0 ** amp_exp
     y = g * x
     desc = {"kind": "gain", "seed": list(seedt), "backend": backend, "N": N, "g": g,
-            "order": order, "sched": sched, "win": win, "cuda": cuda}
+            "order": order, "sched": sched, "win": win, "cuda": cuda, "amp_exp": amp_exp}
     rec.case(desc, nontrivial=True)
     kw = dict(order=order, scheduler=sched, backend=backend, Jdes=int(rng.choice([8, 30])),
               Kdes=int(rng.choice([2, 20])), olap=0.5 if cuda else "default")
@@ -116,6 +123,8 @@ def gain_case(rec, seedt, backend, cuda):
     if not np.any(valid):
         return
     rec.count(f"gain_bins[{'numba' if backend == 'auto' else backend}]", int(valid.sum()))
+    if amp_exp:
+        rec.count("gain_cases_in_rescaled_units")
     tol = 1e-9
     if not exact:
         sw = np.abs(np.sin(2 * np.pi * r.f[valid] / fs))
@@ -158,11 +167,13 @@ def delay_case(rec, seedt, backend, cuda, tier="quick"):
     xl = gen.record(rng, N + d, "white" if kind == "white" else ("ar1" if kind == "ar1" else "walk"))
     if kind == "walk+white":
         xl = xl / np.sqrt(N) * 3 + gen.record(rng, N + d, "white")
+    amp_exp = int(rng.choice([0, 0, 0, -40, -100, -200, 40, 130]))
+    xl = xl * 2.0 ** amp_exp
     x, y = xl[d:], xl[:-d]
     fs = float(rng.choice([1.0, 10.0, 1e3]))
     desc = {"kind": "delay", "seed": list(seedt), "backend": backend, "N": N, "d": d,
             "Lmin": Lmin, "order": order, "sched": sched, "win": win, "cuda": cuda, "rec": kind,
-            "tier": tier}
+            "tier": tier, "amp_exp": amp_exp}
     rec.case(desc, nontrivial=False)
     kw = dict(order=order, scheduler=sched, backend=backend, Lmin=Lmin,
               Jdes=int(rng.choice([30, 100])), Kdes=int(rng.choice([10, 50])),
